@@ -293,7 +293,12 @@ def run(rep, tier, seed):
     nP = applied = nkeys = 0
     plan = [(c, d, k, None) for (c, d, k) in plan] + [("MC_Ns3x.cfg", True, 4000, "x"),       # once more with every node's own prefix field set to x
                                                       ("MC_Ns3xy.cfg" if tier == "thorough" else "MC_Ns3x.cfg", True, 4000, "ids")]     # and with all nodes constructed with ONE id
+    plan.append(("MC_Ns3x.cfg", True, 4000, "alias"))       # and with the model's prefixes realised by XML names that start with a non-ASCII letter
+    from harness.world import World as _W
     for cfg, do_paths, cap, node_prefix in plan:
+        _W.prefix_alias = {"x": "\u00e9co", "y": "\u0434\u0430\u043d\u043d\u044b\u0435"} if node_prefix == "alias" else {}
+        if node_prefix == "alias":
+            node_prefix = None
         G["node_prefix"] = node_prefix if node_prefix != "ids" else None
         G["same_ids"] = node_prefix == "ids"
         a1, a2, a3 = explore(rep, cfg, do_paths, cap, lambda key, det, replay: report(key + (":nodes-carry-prefix" if G.get("node_prefix") else "") + (":nodes-share-an-id" if G.get("same_ids") else ""), det, replay))
@@ -303,6 +308,7 @@ def run(rep, tier, seed):
 
     G["node_prefix"] = None
     G["same_ids"] = False
+    _W.prefix_alias = {}
     # (c) code -> spec
     ntr, nst = (80, 120) if tier == "quick" else (800, 250)
     rnd = random.Random(seed)
